@@ -168,6 +168,30 @@ def apply_action(fit, ftype, a):
             fit.disable_error("no_such_error")
         elif name == "AddConstraintUnknown":
             fit.add_parameter_constraint("no_such_parameter", 1.0, 0.1)
+        elif name == "ConstraintNonSymmetric":
+            fit.add_matrix_parameter_constraint(list(PARAMS[ftype]), [1.0, 1.0], [[0.04, 0.01], [0.02, 0.09]])
+        elif name == "ConstraintWrongShape":
+            fit.add_matrix_parameter_constraint(list(PARAMS[ftype]), [1.0, 1.0], [[0.04, 0.0, 0.0], [0.0, 0.09, 0.0], [0.0, 0.0, 0.01]])
+        elif name == "ConstraintCorDiagonal":
+            fit.add_matrix_parameter_constraint(list(PARAMS[ftype]), [1.0, 1.0], [[1.0, 0.1], [0.1, 0.9]], matrix_type="cor", uncertainties=[0.1, 0.1])
+        elif name == "ConstraintLengthMismatch":
+            fit.add_matrix_parameter_constraint(list(PARAMS[ftype]), [1.0], [[0.04]])
+        elif name == "SetAllParamsWrongLength":
+            fit.set_all_parameter_values([1.0] * (len(PARAMS[ftype]) + 1))
+        elif name == "LimitNoBounds":
+            fit.limit_parameter(PARAMS[ftype][0])
+        elif name == "AddSourceUnknownAxis":
+            if ftype == "xy":
+                fit.add_error("z", err_val=0.1, name="bad")
+            else:
+                fit.add_error(err_val=0.1, name="bad", reference="elsewhere")
+        elif name == "SetDataPoissonNegative":
+            fit.data = (np.array([2.0, -1.0, 9.0, 7.0, 2.0]), np.linspace(0.0, 5.0, 6))
+        elif name == "SetDataPoissonFractional":
+            fit.data = (np.array([2.0, 5.5, 9.0, 7.0, 2.0]), np.linspace(0.0, 5.0, 6))
+        elif name == "SetDataWrongType":
+            from kafe2 import IndexedContainer
+            fit.data = IndexedContainer([1.0, 2.0, 3.0])
         elif name == "AddSourceBad":
             n = _n(fit)
             pre = ("y",) if ftype == "xy" else ()
